@@ -2,10 +2,11 @@ import SymmModel.Driver.Main
 import SymmModel.Driver.SymH
 import SymmModel.Driver.HamH
 import SymmModel.Driver.TruncH
+import SymmModel.Driver.FermiOpsH
 open Lean SymmModel.Driver
 
 /-- plug-in handlers of the self-contained property models are tried in order -/
-def handlers : List (String → Json → Option (D Json)) := [handleCore, handleSym, handleHam, handleTrunc]
+def handlers : List (String → Json → Option (D Json)) := [handleCore, handleSym, handleHam, handleTrunc, handleFermiOps]
 
 def handleLine (line : String) : Json :=
   match Json.parse line with
